@@ -345,6 +345,7 @@ impl<E: FieldElement> OpFlags<E> {
             + degree7_op_flags[47]
             + degree7_op_flags[46]
             + split_loop_flag
+            + degree4_op_flags[5] // REPEAT
             + shift_left_on_end;
 
         left_shift_flags[2] = left_shift_flags[1] + left_change_1_flag;
